@@ -12,7 +12,7 @@ import (
 func init() {
 	register(&propDef{
 		ID:       "C06",
-		Explain:  "Decided (the at-most-once / never-after-removal / same-key clauses and the per-node table of the match relation): in (*branch).update every Client.Update invoke is skipped for a client already in the per-notification set and is followed by the insertion of that client into the set; subscribe.UpdateNotification hands a non-nil set to every UpdateOnce call, the same set for all updates and deletes of one notification, and Server.Update makes exactly one UpdateNotification call per leaf; the registry's clients/children maps are only touched under Match.mu (writes under the write lock), so when the remove function returns no update is in flight; the remove closure calls removeQuery with the very query/client values given to addQuery and the retained query slice is not aliased by later appends (append-ownership rule on subscribe/match); removeQuery prunes a child only when the recursive call reported it empty and reports a node empty only when it has neither clients nor children; the three index constructions (subscription, snapshot, update) all go through path.ToStrings/CompletePath. Also decided: every recursive call of (*branch).update hands on the per-notification set; the composition of every index slice is fixed (registration: ToStrings(prefix,true) [origin] ToStrings(path,false); update: prefix parameter + ToStrings(path,false), the prefix built with ToStrings(prefix,true) at every caller of UpdateNotification). Also decided: the per-node decision table of the match descent ((*branch).update: clients of the node offered on every path; no children => no descent; exhausted path => every child with an exhausted path; glob element => every child with path[1:]; plain element => exactly the glob child and the path[0] child when present, with path[1:]; evaluated with 1 and 2 elements left) and its agreement with addQuery/removeQuery (exhausted query => this node's clients keyed by the client; otherwise children[query[0]] with query[1:]) - from which 'offered iff every common element agrees, a wildcard on either side agreeing with anything' follows by induction on the path. Round-3 additions: every place that offers a notification to the registry composes the full path of each update/delete (no match at the bare prefix); the query descent's per-node table (C09.query-table, borrowed) for the containment clause. Round-4 addition: every Client.Update invocation in package match happens while Match.mu is held, on every path from every exported entry point (so no offer follows the return of the remove function, which takes the lock for writing). Round-5 addition: addQuery registers unconditionally - the store into clients / the descent happens on every path whatever the node already holds (a client registered for a shorter query included). Round-6 addition: Match.Update / UpdateOnce run the descent on every returning path - no early exit decided by state kept beside the trie (a live-query counter an idempotent remove can drive out of step).",
+		Explain:  "Decided (the at-most-once / never-after-removal / same-key clauses and the per-node table of the match relation): in (*branch).update every Client.Update invoke is skipped for a client already in the per-notification set and is followed by the insertion of that client into the set; subscribe.UpdateNotification hands a non-nil set to every UpdateOnce call, the same set for all updates and deletes of one notification, and Server.Update makes exactly one UpdateNotification call per leaf; the registry's clients/children maps are only touched under Match.mu (writes under the write lock), so when the remove function returns no update is in flight; the remove closure calls removeQuery with the very query/client values given to addQuery and the retained query slice is not aliased by later appends (append-ownership rule on subscribe/match); removeQuery prunes a child only when the recursive call reported it empty and reports a node empty only when it has neither clients nor children; the three index constructions (subscription, snapshot, update) all go through path.ToStrings/CompletePath. Also decided: every recursive call of (*branch).update hands on the per-notification set; the composition of every index slice is fixed (registration: ToStrings(prefix,true) [origin] ToStrings(path,false); update: prefix parameter + ToStrings(path,false), the prefix built with ToStrings(prefix,true) at every caller of UpdateNotification). Also decided: the per-node decision table of the match descent ((*branch).update: clients of the node offered on every path; no children => no descent; exhausted path => every child with an exhausted path; glob element => every child with path[1:]; plain element => exactly the glob child and the path[0] child when present, with path[1:]; evaluated with 1 and 2 elements left) and its agreement with addQuery/removeQuery (exhausted query => this node's clients keyed by the client; otherwise children[query[0]] with query[1:]) - from which 'offered iff every common element agrees, a wildcard on either side agreeing with anything' follows by induction on the path. Round-3 additions: every place that offers a notification to the registry composes the full path of each update/delete (no match at the bare prefix); the query descent's per-node table (C09.query-table, borrowed) for the containment clause. Round-4 addition: every Client.Update invocation in package match happens while Match.mu is held, on every path from every exported entry point (so no offer follows the return of the remove function, which takes the lock for writing). Round-5 addition: addQuery registers unconditionally - the store into clients / the descent happens on every path whatever the node already holds (a client registered for a shorter query included). Round-6 addition: Match.Update / UpdateOnce run the descent on every returning path - no early exit decided by state kept beside the trie (a live-query counter an idempotent remove can drive out of step). Round-7 additions: the snapshot side's CompletePath table, including that what is returned is the accumulated slice itself (an element filtered on the snapshot side only makes the query return leaves the registered key never matches); one match client per subscriber for all its paths.",
 		NotCover: "the induction itself (the per-node table is decided, its closure over whole paths is argued in DESIGN, not derived mechanically) and the containment of ctree.Query's relation in the match relation",
 		Run:      runC06,
 	})
@@ -79,6 +79,9 @@ func runC06(c *Ctx) {
 		}
 		c.Floor("C06.always-descends/paths", n, 2)
 	}
+	oneClientPerSubscriber(c, "C06.one-client")
+	c.Rule("C06.snapshot-path", "the snapshot half of a subscription asks the cache for path.CompletePath(prefix, path) while the streaming half registers the prefix and path elements as they are: CompletePath's decision table (shared with C05 / C19) - origin first, then the prefix index, then the path index, and what is returned is that accumulated slice itself; an element dropped, filtered or rewritten on the snapshot side only makes the query return leaves the registered key never matches")
+	completePathTable(c, "C06.snapshot-path")
 	c.Borrow("C09", map[string]string{"C09.query-table": "C06.query-table"}, "'every leaf a query for that path would return is also streamed' needs the query relation to be the per-node table the match descent contains")
 	isInvoke := func(ev *Ev) bool {
 		ci, ok := ev.In.(ssa.CallInstruction)
@@ -271,7 +274,8 @@ func runC06(c *Ctx) {
 			}
 			c.Check(ok, "C06.once", fnName(upd), "recursive update hands on the per-notification set", P.Pos(ci.Pos()), bad)
 		}
-		c.Floor("C06.once/recursive-calls", n, 2)
+		// (one call site when the children to descend into are collected first and processed in one loop)
+		c.Floor("C06.once/recursive-calls", n, 1)
 	}
 	// ---- once: UpdateNotification always hands a set
 	{
